@@ -81,7 +81,10 @@ theorem covN_vars : (n : Node) → ∀ c, covN n = .ok c → varsP c.mod ⊆ var
     simpa only [varsP] using covN_vars e a ha
   | .ret (some e) => by
     intro c h
-    simp only [covN, bind_eq_ok, pure_eq_ok, Except.ok.injEq] at h
+    simp only [covN] at h
+    split at h
+    · simp only [pure_eq_ok, Except.ok.injEq] at h; subst h; exact List.Subset.refl _
+    simp only [bind_eq_ok, pure_eq_ok, Except.ok.injEq] at h
     obtain ⟨a, ha, rfl⟩ := h
     simpa only [varsP, varsPO] using covN_vars e a ha
   | .unop op e => by
@@ -229,6 +232,186 @@ theorem covBody_vars (b : Node) :
 termination_by (sizeOf b, 1)
 end
 
+/-! ### the removal pass cannot create an effect -/
+
+theorem or_true_of {a b a' b' : Bool} (h1 : a' = true → a = true) (h2 : b' = true → b = true)
+    (h : (a' || b') = true) : (a || b) = true := by
+  cases a' <;> cases b' <;> simp_all
+
+mutual
+theorem covN_hasEffect : (n : Node) → ∀ c, covN n = .ok c → hasEffect c.mod = true →
+    hasEffect n = true
+  | .id _ | .const .. | .brk | .cont | .empty | .typeDecl | .ternary .. | .arrayRef ..
+  | .switch .. | .goto _ | .funcCall .. | .binop .. | .other .. | .funcDecl _
+  | .compound none | .ret none => by
+    intro c h
+    simp only [covN, pure_eq_ok, Except.ok.injEq] at h
+    subst h
+    first | exact id | (split <;> exact id)
+  | .decl .. => by
+    intro c h
+    simp only [covN_decl, Except.ok.injEq] at h
+    subst h; exact id
+  | .assign .. => by
+    intro _ _ _
+    simp only [hasEffect]
+  | .cast e => by
+    intro c h
+    simp only [covN_cast, bind_eq_ok, Except.ok.injEq] at h
+    obtain ⟨a, ha, rfl⟩ := h
+    simpa only [hasEffect] using covN_hasEffect e a ha
+  | .label _ e => by
+    intro c h
+    simp only [covN, bind_eq_ok, pure_eq_ok, Except.ok.injEq] at h
+    obtain ⟨a, ha, rfl⟩ := h
+    simpa only [hasEffect] using covN_hasEffect e a ha
+  | .ret (some e) => by
+    intro c h
+    simp only [covN] at h
+    split at h
+    · simp only [pure_eq_ok, Except.ok.injEq] at h; subst h; exact id
+    simp only [bind_eq_ok, pure_eq_ok, Except.ok.injEq] at h
+    obtain ⟨a, ha, rfl⟩ := h
+    simpa only [hasEffect, hasEffectO] using covN_hasEffect e a ha
+  | .unop op e => by
+    intro c h
+    rw [covN_unop] at h
+    split at h
+    · simp only [bind_eq_ok, Except.ok.injEq] at h
+      obtain ⟨a, ha, rfl⟩ := h
+      simp only [hasEffect]
+      exact or_true_of id (covN_hasEffect e a ha)
+    · cases h; exact id
+  | .case_ x l => by
+    intro c h
+    simp only [covN, bind_eq_ok, pure_eq_ok, Except.ok.injEq] at h
+    obtain ⟨a, ha, rfl⟩ := h
+    simp only [hasEffect]
+    exact or_true_of id (covList_hasEffect l a.1 a.2 ha)
+  | .default_ l | .compound (some l) | .declList l | .exprList l | .paramList l => by
+    intro c h
+    simp only [covN, bind_eq_ok, pure_eq_ok, Except.ok.injEq] at h
+    obtain ⟨a, ha, rfl⟩ := h
+    simpa only [hasEffect] using covList_hasEffect l a.1 a.2 ha
+  | .while_ _ b | .doWhile _ b => by
+    intro c h
+    simp only [covN] at h
+    split at h
+    · simp only [pure_eq_ok, Except.ok.injEq] at h; subst h; exact id
+    simp only [bind_eq_ok, pure_eq_ok, Except.ok.injEq] at h
+    obtain ⟨a, ha, rfl⟩ := h
+    simp only [hasEffect]
+    exact or_true_of id (covBody_hasEffect b a.1 a.2 ha)
+  | .for_ init cond next b => by
+    intro c h
+    rw [covN_for] at h
+    split at h
+    · simp only [bind_eq_ok, Except.ok.injEq] at h
+      obtain ⟨a, ha, rfl⟩ := h
+      simp only [hasEffect]
+      exact or_true_of id (covBody_hasEffect b a.1 a.2 ha)
+    · cases h; exact id
+  | .ifs _ t f => by
+    intro c h
+    simp only [covN] at h
+    split at h
+    · simp only [pure_eq_ok, Except.ok.injEq] at h; subst h; exact id
+    simp only [bind_eq_ok, pure_eq_ok, Except.ok.injEq] at h
+    obtain ⟨a, ha, b, hb, rfl⟩ := h
+    simp only [hasEffect]
+    exact or_true_of (or_true_of id (covSlot_hasEffect t a.1 a.2 ha))
+      (covSlot_hasEffect f b.1 b.2 hb)
+  | .funcDef d b => by
+    intro c h
+    cases d with
+    | decl nm ty i =>
+      cases ty with
+      | funcDecl oa =>
+        cases oa with
+        | some a =>
+          rw [covN_funcDef_some] at h
+          obtain ⟨ca, cb, ha, hua, hb, hub, rfl⟩ := h
+          simp only [hasEffect, hasEffectO]
+          exact or_true_of (or_true_of (covN_hasEffect a ca ha) id) (covN_hasEffect b cb hb)
+        | none =>
+          rw [covN_funcDef_other _ _ _ (by intro _ _ _ h; cases h)] at h
+          obtain ⟨cb, hb, hub, rfl⟩ := h
+          simp only [hasEffect]
+          exact or_true_of id (covN_hasEffect b cb hb)
+      | _ =>
+        rw [covN_funcDef_other _ _ _ (by intro _ _ _ h; cases h)] at h
+        obtain ⟨cb, hb, hub, rfl⟩ := h
+        simp only [hasEffect]
+        exact or_true_of id (covN_hasEffect b cb hb)
+    | _ =>
+      rw [covN_funcDef_other _ _ _ (by intro _ _ _ h; cases h)] at h
+      obtain ⟨cb, hb, hub, rfl⟩ := h
+      simp only [hasEffect]
+      exact or_true_of id (covN_hasEffect b cb hb)
+termination_by n => (sizeOf n, 0)
+theorem covList_hasEffect : (l : List Node) → ∀ k l', covList l = .ok (k, l') →
+    hasEffectL l' = true → hasEffectL l = true
+  | [] => by
+    intro k l' h
+    simp only [covList, pure_eq_ok, Except.ok.injEq, Prod.mk.injEq] at h
+    rw [← h.2]; exact id
+  | n :: ns => by
+    intro k l' h
+    simp only [covList, bind_eq_ok, pure_eq_ok, Except.ok.injEq] at h
+    obtain ⟨c, hc, r, hr, h⟩ := h
+    have h2 := covList_hasEffect ns r.1 r.2 hr
+    split at h
+    · cases h
+      simp only [hasEffectL]
+      intro hh; rw [h2 hh]; exact Bool.or_true _
+    · cases h
+      simp only [hasEffectL]
+      exact or_true_of (covN_hasEffect n c hc) h2
+termination_by l => (sizeOf l, 0)
+theorem covSlot_hasEffect : (o : Option Node) → ∀ k o', covSlot o = .ok (k, o') →
+    hasEffectO o' = true → hasEffectO o = true
+  | none => by
+    intro k l' h
+    simp only [covSlot, pure_eq_ok, Except.ok.injEq, Prod.mk.injEq] at h
+    rw [← h.2]; exact id
+  | some n => by
+    intro k l' h
+    simp only [covSlot, bind_eq_ok, pure_eq_ok, Except.ok.injEq] at h
+    obtain ⟨c, hc, h⟩ := h
+    split at h
+    · cases h
+      simp only [hasEffectO, hasEffect]
+      intro hh; cases hh
+    · cases h
+      simp only [hasEffectO]
+      exact covN_hasEffect n c hc
+termination_by o => (sizeOf o, 0)
+theorem covBody_hasEffect (b : Node) :
+    ∀ k b', covBody b = .ok (k, b') → hasEffect b' = true → hasEffect b = true := by
+  intro k b' h
+  cases hc : b.isCompound
+  · rw [covBody_nc b hc] at h
+    simp only [bind_eq_ok, Except.ok.injEq] at h
+    obtain ⟨c, hc, h⟩ := h
+    split at h
+    · cases h
+      simp only [hasEffect]
+      intro hh; cases hh
+    · cases h
+      exact covN_hasEffect b c hc
+  · obtain ⟨items, rfl⟩ := isCompound_elim hc
+    cases items with
+    | none =>
+      simp only [covBody, pure_eq_ok, Except.ok.injEq, Prod.mk.injEq] at h
+      rw [← h.2]; exact id
+    | some l =>
+      simp only [covBody, bind_eq_ok, pure_eq_ok, Except.ok.injEq] at h
+      obtain ⟨a, ha, h⟩ := h
+      cases h
+      simpa only [hasEffect] using covList_hasEffect l a.1 a.2 ha
+termination_by (sizeOf b, 1)
+end
+
 /-! ### (C07, part 2) after the removal pass everything left is supported -/
 
 theorem allowRhs_congr {a b : Node} (h : a.ctorIdx = b.ctorIdx) : allowRhs a = allowRhs b := by
@@ -345,9 +528,18 @@ theorem covN_mod_full :
     simp only [covN, covN_mod_full e a ha hu, ok_bind, pure_eq_ok]
   | .ret (some e) => by
     intro c h hu
-    simp only [covN, bind_eq_ok, pure_eq_ok, Except.ok.injEq] at h
+    simp only [covN] at h
+    split at h
+    · simp only [pure_eq_ok, Except.ok.injEq] at h; subst h; cases hu
+    rename_i hc
+    simp only [bind_eq_ok, pure_eq_ok, Except.ok.injEq] at h
     obtain ⟨a, ha, rfl⟩ := h
-    simp only [covN, covN_mod_full e a ha hu, ok_bind, pure_eq_ok]
+    have hm : hasEffect a.mod = false := by
+      cases hm : hasEffect a.mod
+      · rfl
+      · exact absurd (covN_hasEffect e a ha hm) hc
+    simp only [covN, hm, Bool.false_eq_true, if_false, covN_mod_full e a ha hu, ok_bind,
+      pure_eq_ok]
   | .unop op e => by
     intro c h hu
     rw [covN_unop] at h
